@@ -51,7 +51,7 @@ ASSUMPTIONS = [
     "ulp of max|F|, made where the field is large) travel with the wave, so Field/Phasor records use scale = "
     "max(max|record|, rho*max|F| over the whole domain and all steps) with rho = 1e-3 (f64) / 1 (f32), Energy/Poynting "
     "records are always compared when the field histories are bit-equal, otherwise only when their raw per-cell values "
-    "reach rho_q^2*max|F|^2 (rho_q = 0.03 f64 / 0.8 f32; unreduced twin detector for reduced records), and reduced Poynting "
+    "reach theta*max|F|*max|F_local| (theta = 1e-3 f64 / 0.3 f32; unreduced twin detector for reduced records), and reduced Poynting "
     "sums are scaled by their cancellation factor sum|S_i|/|sum S_i| from an unreduced twin detector (otherwise a "
     "mean that cancels to 1e-23 would be compared with itself)",
     "a child that does not see the requested device count is a harness error, never a violation",
@@ -127,6 +127,23 @@ def _rotated(seq, k):
     return tuple(seq[k:]) + tuple(seq[:k])
 
 
+def _aim(d, s, shape):
+    """Shift detector box d (size kept) so that it contains a cell lit by source s — otherwise most random boxes sit
+    where the wave has not arrived within the run and their quadratic records are below the round-off noise."""
+    if s["type"] in ("uniform_plane", "gaussian_plane"):
+        p = [n // 2 for n in shape]
+        p[s["axis"]] = s["pos"]
+    elif s["type"] == "tfsf_region":
+        p = [(a + b) // 2 for a, b in zip(s["lo"], s["hi"])]
+    else:
+        p = list(s["pos"])
+    for a in range(3):
+        size = d["hi"][a] - d["lo"][a]
+        if not d["lo"][a] <= p[a] < d["hi"][a]:
+            d["lo"][a] = max(0, min(p[a], shape[a] - size))
+            d["hi"][a] = d["lo"][a] + size
+
+
 def _fix_poynting_axis(d):
     if d["type"] == "poynting" and not d.get("keep_all"):
         thin = [a for a in range(3) if d["hi"][a] - d["lo"][a] == 1]
@@ -174,6 +191,8 @@ def case_strategy(draw, ctx):
         d["switch"] = _window(draw, steps)
         if i == 0:
             d["reduce"] = True  # at least one record reduced over (part of) the sharded axis
+        if draw(st.integers(0, 3)) > 0:
+            _aim(d, sources[i % len(sources)], shape)
         _fix_poynting_axis(d)
         dets.append(d)
     scene = {"shape": shape, "steps": steps, "courant": draw(st.sampled_from([0.99, 0.7])), "grid": grid, "faces": faces,
@@ -478,7 +497,7 @@ def body(ctx, case):
     by_name = {d["name"]: d for d in scene["detectors"]}
     # quiet-region floors as fractions of max|F| over the whole domain and all steps (see _with_aux)
     rho_lin = ctx.tol(1e-3, 1.0)
-    rho_quad = ctx.tol(0.03, 0.8)
+    theta = ctx.tol(1e-3, 0.3)
     for n in DEVICE_COUNTS[1:]:
         got = res[n][1]
         ctx.check(set(got) == set(ref), f"{n}-device run returns different records", observed=sorted(got), expected=sorted(ref))
@@ -510,9 +529,10 @@ def body(ctx, case):
             else:
                 rawk = f"det::{name}{TWIN}::" + k.split("::")[2]
                 raw = ref[rawk] if rawk in ref else ref[k]
-                if err > 0.0 and _amax(raw) < rho_quad * rho_quad * fmax * fmax:
+                region = (slice(None), slice(None), *(slice(max(lo - 1, 0), hi + 1) for lo, hi in zip(d["lo"], d["hi"])))
+                if err > 0.0 and _amax(raw) < theta * fmax * _amax(allref[region]):
                     # the field histories differ by round-off: a product of fields then carries the absolute noise
-                    # eps*max|F|*(|E|+|H|), above the tolerance for records below rho_quad^2*max|F|^2
+                    # ~4*eps*max|F|*|F_local|, above the tolerance for records below theta*max|F|*|F_local|
                     ctx.classify("quadratic-below-noise-not-checked")
                     continue
                 if d["type"] == "poynting" and d.get("reduce"):
